@@ -144,5 +144,15 @@ PROPS["C15"] = {
     "rule": "per role: canonical forms and near misses (19 octet spellings x 4 positions x 18 port spellings), all strings <= 4 (thorough <= 6) over {0,1,9,.,:,a}, quads embedded in surrounding text, IPv6-looking strings, random single-character mutations of valid addresses, String() of generated addresses and parse of the formatted text. Non-trivial = non-empty string; distinct = distinct Coq case terms.",
 }
 
+PROPS["C13"] = {
+    "engine": "text", "properties_file": "Properties/C13.v", "env": {"TZ": "UTC"},
+    "model_files": ["Model/GoTime.v", "Model/Cases13.v"],
+    "technique": "Coq: theorems over an abstract zone offset function (every zone with offset changes further apart than its offsets are large), calendar inverse for all years by one-era enumeration + periodicity; differential run with zone tables extracted from Go",
+    "level_text": "Proved for every zone satisfying the window hypothesis (not a list of zones): time.Date returns an instant whose wall-clock reading is the requested one whenever such an instant exists; hence a date-time decoded from the wire, and the status system date+time recombination, report exactly the transmitted fields when that civil time exists; the date constructor (first whole hour of the day that reads back the requested day) reports exactly the requested year/month/day unless every whole hour of the day is missing; the Gregorian day count is inverted for all years (146 097-day era by kernel evaluation, periodicity by lia); the pre-repair constructor (local midnight) is refuted by a witness zone/day. Tie: per process zone (36 quick / all installed thorough) the harness extracts the offset table from Go (6 h stepping + bisection, never ZoneBounds), the model is evaluated with that table and compared with ToDate, ParseDate, the Date wire and JSON decoders, the DateTime wire decoder and GetStatus on all days around offset changes (all midnight-skipping ones found), boundaries and random values.",
+    "level_note": "Trusted: Coq kernel + vm_compute (era enumeration); the model of time.Date / Format / ParseInLocation (go_date u0 = u0 - off(u0 - off u0), valid when Go's reported zone interval lies inside the true constant-offset interval); the zone tables are measured from the Go runtime, and that each satisfies the window hypothesis is measured (min interval vs max |offset| reported in the evidence), not proved. F11 was found by this check and repaired in /repo.",
+    "rule": "per zone: local days -1/0/+1 around sampled offset changes and around every sampled midnight-skipping change x 4 constructors, civil date-times at -3600..+7200 s around the change on both sides (also through GetStatus for two-digit years), year/month boundaries, random dates and date-times. Non-trivial = all; distinct = distinct Coq case terms.",
+    "harness_timeout": {"quick": 900, "thorough": 7200},
+}
+
 DEV = {"API": {"engine": "api", "properties_file": "Properties/C12.v", "model_files": [], "env": {"TZ": "UTC"}}}
 NOT_YET = {}
